@@ -43,9 +43,9 @@ func (mgr *Manager) newInstance(owner key.TargetID, mod info.Modifier, renew int
 		count:                    mod.Count,
 		maxCount:                 mod.MaxCount,
 		countAddWhenStack:        mod.CountAddWhenStack,
-		stats:                    mod.Stats,
-		debuffRES:                mod.DebuffRES,
-		weakness:                 mod.Weakness,
+		stats:                    make(info.PropMap, len(mod.Stats)),
+		debuffRES:                make(info.DebuffRESMap, len(mod.DebuffRES)),
+		weakness:                 make(info.WeaknessMap, len(mod.Weakness)),
 		manager:                  mgr,
 		listeners:                config.Listeners,
 		statusType:               config.StatusType,
@@ -56,14 +56,17 @@ func (mgr *Manager) newInstance(owner key.TargetID, mod info.Modifier, renew int
 		canDispel:                config.CanDispel,
 	}
 
-	if mi.stats == nil {
-		mi.stats = info.NewPropMap()
+	// every instance owns its data: the caller's maps are copied, not shared, so that one
+	// description can be reused for several targets and changing an instance never changes
+	// another instance or the caller's description
+	for k, v := range mod.Stats {
+		mi.stats[k] = v
 	}
-	if mi.debuffRES == nil {
-		mi.debuffRES = info.NewDebuffRESMap()
+	for k, v := range mod.DebuffRES {
+		mi.debuffRES[k] = v
 	}
-	if mi.weakness == nil {
-		mi.weakness = info.NewWeaknessMap()
+	for k, v := range mod.Weakness {
+		mi.weakness[k] = v
 	}
 
 	// Apply defaults from config as fallback
